@@ -4,12 +4,44 @@ NOTES = ('All checks explore the real implementation in /repo (working tree) exh
          'models (vt/ref). VERIF_SEED only rotates non-boundary members of value alphabets; structures are enumerated completely for every seed. '
          'Genuine defects found are fixed in /repo by "fix:" commits or listed in known_findings.json.')
 ENGINES = [
-    {'name': 'E-enum', 'path': 'vt/astgen.py, vt/par.py, vt/ref/', 'serves_properties': ['C01', 'C02', 'C03', 'C08', 'C09', 'C11', 'C15', 'C16', 'C17', 'C18'],
+    {'name': 'E-enum', 'path': 'vt/astgen.py, vt/par.py, vt/ref/', 'serves_properties': ['C01', 'C02', 'C03', 'C04', 'C08', 'C09', 'C11', 'C12', 'C13', 'C15', 'C16', 'C17', 'C18'],
      'kind_free_text': 'bounded-exhaustive program x data enumerator: all well-typed statements of bounded shape over the live registries x all tables/ledgers of bounded size over a value alphabet, executed on the real implementation and compared with a reference interpreter'},
     {'name': 'E-bfs', 'path': 'vt/explore/bfs.py', 'serves_properties': ['C10', 'C19'],
      'kind_free_text': 'explicit-state breadth-first search over operation histories on the product (real object, reference model) with canonical-state deduplication and closure detection'},
 ]
 CHECKS = {
+    'C04': {
+        'engine': 'E-enum',
+        'technique': 'exhaustive enumeration of every overload in the live operator/function registries x every argument type instantiation, composed to depth 2, with a datatype invariant on every result cell',
+        'design_ref': 'DESIGN.md section 4, C04',
+        'text': 'Every overload of every operator, function and aggregate in the live registries x every concrete instantiation of `Any` slots (13 column types incl. Amount, Position, Inventory, interval, '
+                'set, list, dict, object) and bool for int slots, on tables holding the full product of the column alphabets; depth 2: every column slot of every such program replaced by every depth-1 '
+                'producer whose ANNOUNCED datatype is the slot type (35k programs); every attribute path of every structured type, dict subscripts, implicit casts of object operands, FROM/IN subquery '
+                'columns; `*` and all columns of every table over the ledger family (n <= 1 quick, <= 2 thorough). Invariants: every cell is NULL or an instance of the announced datatype, no '
+                'non-data exception escapes execute, render_text / render_csv / numberify accept the result.',
+        'note': 'Trusted: beancount data model. Data errors (ValueError, ArithmeticError, re.error, KeyError, IndexError) are not type errors: failing rows are isolated and dropped. Open known findings: '
+                'min/max over unorderable values, truth value of Inventory. Membership of amount-like values in collections of foreign element types is outside (beancount equality raises).',
+    },
+    'C12': {
+        'engine': 'E-enum',
+        'technique': 'bounded-exhaustive enumeration of all transaction sequences of <= n templates x selections x functions against beancount Inventory folds computed by direct traversal',
+        'design_ref': 'DESIGN.md section 4, C12',
+        'text': 'ALL ledgers of <= 3 (quick: 525 bookable) / <= 4 (thorough: 3,891) transactions over 8 templates (two currencies, lots at cost with dates, partial sales, conversions, expenses) with '
+                'terminating exchange rates x WHERE/FROM selections x groupings x {units, cost, value, value@date, convert USD/EUR with/without date}: sum() equals the beancount Inventory fold, f(sum(x)) '
+                '== sum(f(x)), partition sums add up to the total, and the running balance equals the prefix sum however many times (0-3) and wherever the targets reference it, with an intervening '
+                'nested scan consulting balance, and with balance in WHERE.',
+        'note': 'Trusted: beancount Inventory/convert/prices. Balance-in-WHERE cases only where the balance term is evaluated on every scanned row.',
+    },
+    'C13': {
+        'engine': 'E-enum',
+        'technique': 'bounded-exhaustive enumeration of ledgers x all boundary dates x all OPEN/CLOSE/CLEAR clause subsets x statement kinds against period-report invariants computed from the full ledger',
+        'design_ref': 'DESIGN.md section 4, C13',
+        'text': '20 (quick) / 300 (thorough) ledgers of the C12 family, most feature-rich first, x every pair of dates d <= e out of {before the span, each entry date, each entry date + 1, after the span} '
+                'x all 12 clause shapes (CLOSE with and without date) x FROM filters x SELECT / BALANCES / JOURNAL / PRINT, plus d > e: originals inside [d, e) returned unchanged and in order, '
+                'balance-sheet totals equal balances as of e in the full ledger, income statement carries only activity since d and clears to zero, every returned transaction balances, filter '
+                'independence of the clause order, d > e rejected at compile time.',
+        'note': 'Trusted: beancount data model and interpolate; the oracle never calls beancount.ops.summarize. beanquery.parser.parse is memoised by text inside the check (BALANCES/JOURNAL re-parse a template on every compile).',
+    },
     'C09': {
         'engine': 'E-enum',
         'technique': 'exhaustive enumeration of parameter assignments, constant assignments and ALL execution histories up to a depth on one connection, each compared with literal / per-row / fresh-connection executions',
